@@ -926,3 +926,184 @@ Proof.
   exists max_int64, [1%N], [], true, [1%nat]. split; [unfold max_int64, two63; lia|].
   exact (read_all64_maxint64_panics [1%N] [] true 1%nat [] (le_n 1)).
 Qed.
+
+(* ======================================================================================== *)
+(* ---- parseSize, converse: every string denoting a product within 1..2^63-1 is accepted ---- *)
+
+Lemma has_suffix_iff s suf : has_suffix s suf = true <-> exists p, s = p ++ suf.
+Proof.
+  split.
+  - intros H. eexists. apply has_suffix_split. exact H.
+  - intros [p ->]. unfold has_suffix. rewrite app_length.
+    apply andb_true_iff. split; [apply Nat.leb_le; lia|].
+    replace (length p + length suf - length suf)%nat with (length p) by lia.
+    rewrite skipn_app, Nat.sub_diag, skipn_all. cbn [skipn app]. apply beq_refl.
+Qed.
+
+Lemma has_suffix_prefix (p suf : bytes) : firstn (length (p ++ suf) - length suf) (p ++ suf) = p.
+Proof.
+  rewrite app_length. replace (length p + length suf - length suf)%nat with (length p) by lia.
+  rewrite firstn_app, Nat.sub_diag, firstn_O, app_nil_r, firstn_all. reflexivity.
+Qed.
+
+Lemma span_digits_spec : forall r ds sym, span_digits r = (ds, sym) ->
+  r = ds ++ sym /\ Forall (fun c => is_digit c = true) ds /\
+  match sym with [] => True | c :: _ => is_digit c = false end.
+Proof.
+  induction r as [|c r IH]; intros ds sym H; cbn [span_digits] in H.
+  - injection H as <- <-. repeat split; constructor.
+  - destruct (is_digit c) eqn:Hc.
+    + destruct (span_digits r) as [d t] eqn:Hs. injection H as <- <-.
+      destruct (IH _ _ eq_refl) as (-> & Hall & Hh). repeat split; auto.
+    + injection H as <- <-. cbn. rewrite Hc. repeat split; constructor.
+Qed.
+
+Lemma digits_val_complete ds : forall acc,
+  Forall (fun c => is_digit c = true) ds ->
+  digits_val ds acc = Some (fold_left (fun a c => a * 10 + digit_val c) ds acc).
+Proof.
+  induction ds as [|c r IH]; intros acc H; cbn [digits_val fold_left]; [reflexivity|].
+  inversion H as [|? ? Hc Hr]; subst. rewrite Hc. apply IH. exact Hr.
+Qed.
+
+Lemma parse_int64_complete (sign ds : bytes) neg :
+  ds <> [] -> Forall (fun c => is_digit c = true) ds ->
+  (sign = [] /\ neg = false) \/ (sign = [43%N] /\ neg = false) \/ (sign = [45%N] /\ neg = true) ->
+  - two63 <= signed neg (dec ds) < two63 ->
+  parse_int64 (sign ++ ds) = Some (signed neg (dec ds)).
+Proof.
+  intros Hne Hall Hs Hr. unfold parse_int64.
+  destruct Hs as [[-> ->]|[[-> ->]|[-> ->]]]; cbn [app].
+  - destruct ds as [|c r]; [congruence|].
+    inversion Hall as [|? ? Hc Hr']; subst. destruct (is_digit_not_sign _ Hc) as [-> ->].
+    rewrite (digits_val_complete (c :: r) 0 Hall). fold (dec (c :: r)).
+    unfold signed in *. replace (dec (c :: r) <? two63) with true by (symmetry; apply Z.ltb_lt; lia). reflexivity.
+  - rewrite N.eqb_refl. destruct ds as [|c r] eqn:E; [congruence|]. rewrite <- E in *.
+    rewrite (digits_val_complete ds 0 Hall). fold (dec ds).
+    unfold signed in *. replace (dec ds <? two63) with true by (symmetry; apply Z.ltb_lt; lia). reflexivity.
+  - change (45 =? 43)%N with false. rewrite N.eqb_refl. destruct ds as [|c r] eqn:E; [congruence|]. rewrite <- E in *.
+    rewrite (digits_val_complete ds 0 Hall). fold (dec ds).
+    unfold signed in *. replace (dec ds <=? two63) with true by (symmetry; apply Z.leb_le; lia). reflexivity.
+Qed.
+
+(* a string ending in digit d followed by sym has none of the other unit symbols as suffix *)
+Lemma app2_inj {A} (p q : list A) a b c d : p ++ [a; b] = q ++ [c; d] -> a = c /\ b = d.
+Proof.
+  intros H. change (p ++ [a; b]) with (p ++ [a] ++ [b]) in H. change (q ++ [c; d]) with (q ++ [c] ++ [d]) in H.
+  rewrite !app_assoc in H. apply app_inj_tail in H as [H ->]. apply app_inj_tail in H as [_ ->]. auto.
+Qed.
+Lemma app1_inj {A} (p q : list A) a b : p ++ [a] = q ++ [b] -> a = b.
+Proof. intros H. apply app_inj_tail in H as [_ ->]. reflexivity. Qed.
+
+Lemma digit_not_letter d : is_digit d = true -> d <> 75%N /\ d <> 77%N /\ d <> 71%N /\ d <> 66%N.
+Proof.
+  unfold is_digit. intros H. apply andb_true_iff in H as [_ H]. apply N.leb_le in H. repeat split; lia.
+Qed.
+
+Lemma parse_size_units_complete (sign ds : bytes) neg sym mult :
+  ds <> [] -> Forall (fun c => is_digit c = true) ds ->
+  (sign = [] /\ neg = false) \/ (sign = [43%N] /\ neg = false) \/ (sign = [45%N] /\ neg = true) ->
+  - two63 <= signed neg (dec ds) < two63 ->
+  In (sym, mult) units ->
+  parse_size_units ((sign ++ ds) ++ sym) units = wrap64 (signed neg (dec ds) * mult).
+Proof.
+  intros Hne Hall Hs Hr Hin.
+  pose proof (parse_int64_complete sign ds neg Hne Hall Hs Hr) as Hp.
+  (* the digit run ends in a digit d: ds = ds0 ++ [d] *)
+  destruct (exists_last Hne) as (ds0 & d & Eds).
+  assert (Hd : is_digit d = true).
+  { rewrite Eds in Hall. apply Forall_app in Hall as [_ Hl]. inversion Hl; assumption. }
+  destruct (digit_not_letter d Hd) as (HK & HM & HG & HB).
+  set (P := sign ++ ds) in *.
+  assert (EP : P = (sign ++ ds0) ++ [d]) by (unfold P; rewrite Eds, app_assoc; reflexivity).
+  assert (Hyes : forall suf, has_suffix (P ++ suf) suf = true) by (intros; apply has_suffix_iff; eexists; reflexivity).
+  unfold units in Hin. cbn [bs] in Hin. unfold units. cbn [bs parse_size_units].
+  change (N_of_ascii "K") with 75%N in *. change (N_of_ascii "M") with 77%N in *.
+  change (N_of_ascii "G") with 71%N in *. change (N_of_ascii "B") with 66%N in *.
+  assert (F : forall suf, has_suffix (P ++ sym) suf = false <-> ~ exists p, P ++ sym = p ++ suf).
+  { intros suf. rewrite <- has_suffix_iff. destruct (has_suffix (P ++ sym) suf); split; intros; try congruence; try tauto. }
+  destruct Hin as [E|[E|[E|[E|[E|[]]]]]]; injection E as <- <-.
+  - rewrite Hyes, has_suffix_prefix, Hp. reflexivity.
+  - replace (has_suffix (P ++ [77%N; 66%N]) [75%N; 66%N]) with false.
+    2:{ symmetry. apply F. intros [p H]. apply app2_inj in H as [H _]. lia. }
+    rewrite Hyes, has_suffix_prefix, Hp. reflexivity.
+  - replace (has_suffix (P ++ [71%N; 66%N]) [75%N; 66%N]) with false.
+    2:{ symmetry. apply F. intros [p H]. apply app2_inj in H as [H _]. lia. }
+    replace (has_suffix (P ++ [71%N; 66%N]) [77%N; 66%N]) with false.
+    2:{ symmetry. apply F. intros [p H]. apply app2_inj in H as [H _]. lia. }
+    rewrite Hyes, has_suffix_prefix, Hp. reflexivity.
+  - assert (G : forall x, has_suffix (P ++ [66%N]) [x; 66%N] = false <-> d <> x).
+    { intros x. rewrite F. split.
+      - intros Hn ->. apply Hn. exists (sign ++ ds0). rewrite EP, <- app_assoc. reflexivity.
+      - intros Hdx [p H]. rewrite EP, <- app_assoc in H. cbn [app] in H. apply app2_inj in H as [H _]. congruence. }
+    rewrite (proj2 (G 75%N) HK), (proj2 (G 77%N) HM), (proj2 (G 71%N) HG).
+    rewrite Hyes, has_suffix_prefix, Hp. reflexivity.
+  - rewrite !app_nil_r.
+    assert (G2 : forall x, has_suffix P [x; 66%N] = false).
+    { intros x. destruct (has_suffix P [x; 66%N]) eqn:H; [|reflexivity]. apply has_suffix_iff in H as [p H].
+      rewrite EP in H. change (p ++ [x; 66%N]) with (p ++ [x] ++ [66%N]) in H. rewrite app_assoc in H.
+      apply app1_inj in H. congruence. }
+    assert (G1 : has_suffix P [66%N] = false).
+    { destruct (has_suffix P [66%N]) eqn:H; [|reflexivity]. apply has_suffix_iff in H as [p H].
+      rewrite EP in H. apply app1_inj in H. congruence. }
+    rewrite !G2, G1.
+    pose proof (Hyes []) as Hy. rewrite app_nil_r in Hy. rewrite Hy.
+    pose proof (has_suffix_prefix P []) as Hpre. rewrite app_nil_r in Hpre. rewrite Hpre, Hp. reflexivity.
+Qed.
+
+Lemma unit_of_in sym u : unit_of sym = Some u -> In (sym, u) units.
+Proof.
+  unfold unit_of. destruct (find _ units) as [[s' m]|] eqn:Hf; [|discriminate].
+  intros E; injection E as <-. apply find_some in Hf as [Hin Hb]. cbn [fst] in Hb.
+  apply beq_eq in Hb. subst s'. exact Hin.
+Qed.
+
+Theorem accept_size_complete s n u :
+  denote s = Some (n, u) -> 1 <= n * u <= max_int64 -> accept_size s = Some (n * u).
+Proof.
+  intros Hd Hr. unfold denote in Hd. set (U := map upper_b s) in *.
+  assert (Hshape : exists sign ds sym neg, U = (sign ++ ds) ++ sym /\ ds <> [] /\
+            Forall (fun c => is_digit c = true) ds /\
+            ((sign = [] /\ neg = false) \/ (sign = [43%N] /\ neg = false) \/ (sign = [45%N] /\ neg = true)) /\
+            n = signed neg (dec ds) /\ In (sym, u) units).
+  { destruct U as [|c r] eqn:EU.
+    - cbn in Hd. discriminate.
+    - destruct (c =? 43)%N eqn:Hp; [|destruct (c =? 45)%N eqn:Hm].
+      + apply N.eqb_eq in Hp. subst c. destruct (span_digits r) as [ds sym] eqn:Hs.
+        destruct ds as [|d0 dr] eqn:Ed; [discriminate|]. rewrite <- Ed in *.
+        destruct (unit_of sym) as [m|] eqn:Hu; [|discriminate]. injection Hd as <- <-.
+        destruct (span_digits_spec _ _ _ Hs) as (-> & Hall & _).
+        exists [43%N], ds, sym, false. repeat split; auto; try (rewrite Ed; discriminate).
+        apply unit_of_in; exact Hu.
+      + apply N.eqb_eq in Hm. subst c. destruct (span_digits r) as [ds sym] eqn:Hs.
+        destruct ds as [|d0 dr] eqn:Ed; [discriminate|]. rewrite <- Ed in *.
+        destruct (unit_of sym) as [m|] eqn:Hu; [|discriminate]. injection Hd as <- <-.
+        destruct (span_digits_spec _ _ _ Hs) as (-> & Hall & _).
+        exists [45%N], ds, sym, true. repeat split; auto; try (rewrite Ed; discriminate).
+        apply unit_of_in; exact Hu.
+      + destruct (span_digits (c :: r)) as [ds sym] eqn:Hs.
+        destruct ds as [|d0 dr] eqn:Ed; [discriminate|]. rewrite <- Ed in *.
+        destruct (unit_of sym) as [m|] eqn:Hu; [|discriminate]. injection Hd as <- <-.
+        destruct (span_digits_spec _ _ _ Hs) as (E & Hall & _).
+        exists [], ds, sym, false. cbn [app]. repeat split; auto; try (rewrite Ed; discriminate).
+        apply unit_of_in; exact Hu. }
+  destruct Hshape as (sign & ds & sym & neg & EU & Hne & Hall & Hsg & Hn & Hin).
+  destruct (units_facts _ _ Hin) as (_ & _ & Hm).
+  assert (Hn64 : - two63 <= signed neg (dec ds) < two63).
+  { rewrite <- Hn. unfold max_int64, two63 in *. nia. }
+  unfold accept_size, parse_size. fold U. rewrite EU.
+  rewrite (parse_size_units_complete sign ds neg sym u Hne Hall Hsg Hn64 Hin).
+  rewrite <- Hn. rewrite wrap64_id by (unfold max_int64, two63 in *; lia).
+  replace (n * u <? 1) with false by (symmetry; apply Z.ltb_ge; lia). reflexivity.
+Qed.
+
+Theorem accept_size_rejects s :
+  accept_size s = None ->
+  match denote s with
+  | None => True
+  | Some (n, u) => ~ (1 <= n * u <= max_int64)
+  end.
+Proof.
+  intros H. destruct (denote s) as [[n u]|] eqn:Hd; [|exact I].
+  intros Hr. rewrite (accept_size_complete s n u Hd Hr) in H. discriminate.
+Qed.
